@@ -34,13 +34,18 @@ def scope_programs(chk):
     # exhaustive: module > one scope > one scope (every kind x every role)
     for t in gen_scope.enum_trees("module", 2, 1):
         add(t)
+    n2 = len(progs)
+    # exhaustive: methods whose implicit __class__ cell precedes the name among their free variables
+    for t in gen_scope.method_trees():
+        add(t)
+    n_meth = len(progs) - n2
     n_exh = len(progs)
     n_rand = 800 if chk.tier == "quick" else 12000
     tries = 0
     while len(progs) < n_exh + n_rand and tries < n_rand * 40:
         tries += 1
         add(gen_scope.random_tree(rng, "module", rng.choice([3, 3, 4]), 2))
-    return progs, {"exhaustive_depth2_chains": n_exh, "random_trees": len(progs) - n_exh, "by_depth": shapes,
+    return progs, {"exhaustive_depth2_chains": n2, "exhaustive_method_classref_trees": n_meth, "random_trees": len(progs) - n_exh, "by_depth": shapes,
                    "candidates_rejected_by_cpython": len(seen) - len(progs)}
 
 
